@@ -22,15 +22,15 @@ pub fn check(run: &CellRun) -> Vec<(String, String)> {
             bad.push(("handle-offset".into(), format!("returned handle is positioned at offset {}", h.offset)));
         }
         if let Res::Hit(b) = &run.outcome.res {
-            if world::identify(b).is_none() {
+            if let Expect::Hit(v) = &m.result {
+                if &v.bytes() != b {
+                    bad.push(("handle-content".into(), format!("handle reads as {}, expected {}", world::describe_bytes(b), v.label())));
+                }
+            } else if world::identify(b).is_none() {
                 bad.push((
                     "handle-content".into(),
                     format!("reading the returned handle to the end gave {}", world::describe_bytes(b)),
                 ));
-            } else if let Expect::Hit(v) = &m.result {
-                if &v.bytes() != b {
-                    bad.push(("handle-content".into(), format!("handle reads as {}, expected {}", world::describe_bytes(b), v.label())));
-                }
             }
         }
     }
@@ -91,7 +91,9 @@ fn promotion_fault_cases(cell: &Cell, run: &CellRun, rep: &mut Report) {
                     msgs.push(format!("positioned at offset {}", h.offset));
                 }
                 if let Res::Hit(b) = &r2.outcome.res {
-                    if world::identify(b).is_none() {
+                    // (the empty value is a value too: thorough cells write 0-byte values)
+                    let empty_ok = b.is_empty() && cell.size == crate::world::Size::Empty;
+                    if world::identify(b).is_none() && !empty_ok {
                         msgs.push(format!("reads as {}", world::describe_bytes(b)));
                     }
                 }
@@ -145,6 +147,7 @@ fn record_inner(cell: &Cell, rep: &mut Report) {
 }
 
 pub fn run(_tier: Tier, shard: Shard, rep: &mut Report) {
+    set_tier(_tier);
     rep.rule = "the C13 and C14 matrices (every hit location, action, checker setting, populate outcome) x umask {000, 022, 077}: \
         F_GETFL access mode and lseek(SEEK_CUR) of every returned handle (judge and checker read the files they are given to the \
         end), bytes read to the end, st_mode of every file visible under the key name in the write cache; by-path set/put additionally with sources made by \
@@ -218,7 +221,7 @@ fn concurrent_programs() -> Vec<(crate::sched::Program, crate::props::e1::Mode)>
             }
             out.push((
                 crate::sched::Program { name: format!("handle-{}-{}", front, name), cfg: cfg(cap), pre, threads: e1::own_handles(threads, fire), create_write_dir: true },
-                Mode::Bounded(2),
+                crate::props::e1::side_bound(),
             ));
         };
         add("ensure|deleter", 1 << 40, vec![], vec![vec![api(Op::Ensure(k.clone(), Pop::Value(v(0))))], vec![POp::Unlink(loc("k"))]], false);
